@@ -397,18 +397,23 @@ fn protect_produced_text(token: &mut types::Token) {
 /// as in `echo $A>file`, still is a redirection).
 /// Text that an expansion produced is final. The passes of `do_expansion`
 /// run one after the other over the same tokens, so characters of produced
-/// text that would start another expansion - `$(`, a backquote, `{` - are
-/// masked by private-use characters until all passes are done.
+/// text that would start or shape another expansion - `$(`, a backquote,
+/// `{`, `}` and `,` - are masked by private-use characters until all passes
+/// are done.
 fn mask_produced(text: &str) -> String {
     text.replace("$(", "\u{E000}(")
         .replace('`', "\u{E001}")
         .replace('{', "\u{E002}")
+        .replace('}', "\u{E003}")
+        .replace(',', "\u{E004}")
 }
 
 fn unmask_produced(text: &str) -> String {
     text.replace('\u{E000}', "$")
         .replace('\u{E001}', "`")
         .replace('\u{E002}', "{")
+        .replace('\u{E003}', "}")
+        .replace('\u{E004}', ",")
 }
 
 /// The number of leading `NAME=value` words of a command: they are its
@@ -651,11 +656,17 @@ fn brace_getgroup(s: &str, depth: i32) -> Option<(Vec<String>, String)> {
     None
 }
 
+/// `NAME='...'` / `NAME="..."`: the tokenizer keeps the quotes of such a word
+/// in its text (and gives it no separator); braces in it are quoted text.
+fn is_quoted_assignment(token: &str) -> bool {
+    libs::re::re_contains(token, r#"(?s)^[a-zA-Z0-9_]+=('.*'|".*")$"#)
+}
+
 fn expand_brace(tokens: &mut types::Tokens) {
     let mut idx: usize = 0;
     let mut buff = Vec::new();
     for (sep, token) in tokens.iter() {
-        if !sep.is_empty() || !need_expand_brace(token) {
+        if !sep.is_empty() || !need_expand_brace(token) || is_quoted_assignment(token) {
             idx += 1;
             continue;
         }
@@ -690,7 +701,7 @@ fn expand_brace_range(tokens: &mut types::Tokens) {
     let mut idx: usize = 0;
     let mut buff: Vec<(usize, Vec<String>)> = Vec::new();
     for (sep, token) in tokens.iter() {
-        if !sep.is_empty() || !re.is_match(token) {
+        if !sep.is_empty() || !re.is_match(token) || is_quoted_assignment(token) {
             idx += 1;
             continue;
         }
@@ -1051,6 +1062,11 @@ fn do_command_substitution_for_dot(sh: &mut Shell, tokens: &mut types::Tokens) {
         if sep == "`" {
             new_token = mask_produced(&run_for_substitution(sh, token));
         } else if sep == "\"" || sep.is_empty() {
+            // NAME='...`cmd`...': single-quoted text of an assignment word
+            if libs::re::re_contains(token, r"(?s)^[a-zA-Z0-9_]+='.*'$") {
+                idx += 1;
+                continue;
+            }
             let re;
             if let Ok(x) = Regex::new(r"^([^`]*)`([^`]+)`(.*)$") {
                 re = x;
@@ -1144,7 +1160,7 @@ pub fn do_expansion(sh: &mut Shell, tokens: &mut types::Tokens) {
     do_command_substitution(sh, tokens);
     expand_brace_range(tokens);
     for token in tokens.iter_mut() {
-        if token.1.contains(|c| ('\u{E000}'..='\u{E002}').contains(&c)) {
+        if token.1.contains(|c| ('\u{E000}'..='\u{E004}').contains(&c)) {
             token.1 = unmask_produced(&token.1);
         }
     }
